@@ -654,8 +654,9 @@ Section Oracle.
     N.eqb (i_name a) (i_name b).
 
   (* the calls of one step, checked against the item list in resolved order: item j is called
-     j-th, sees the metadata of the step and, for every entity it requires (and for the three
-     metadata keys), the value of the last earlier provider of this same step.
+     j-th, sees the metadata of the step and, for every entity it requires, for the three metadata
+     keys and for every key present in the map it is handed, the value of the last earlier provider
+     of this same step (so nothing of another step or branch is visible).
      [last] tells whether the step may stop early with an incomplete final call. *)
   Fixpoint step_calls_ok (j : nat) (its : list item) (cs pre : list (call U)) (d0 : list (N * value U)) : bool :=
     match its, cs with
@@ -663,7 +664,7 @@ Section Oracle.
     | it :: ir, c :: cr =>
         Nat.eqb (k_item c) j && item_eqb (k_desc c) it &&
         forallb (fun e => oveqb (dlookup e (k_deps c)) (expected e pre d0))
-                (k_commit :: k_index :: k_merge :: i_requires it) &&
+                (k_commit :: k_index :: k_merge :: i_requires it ++ map fst (k_deps c)) &&
         (if complete c then step_calls_ok (S j) ir cr (pre ++ [c]) d0
          else match cr with [] => true | _ => false end)
     | _, _ => false
